@@ -121,6 +121,13 @@ CHECKS = {
             "raise ValueError/TypeError/NotImplementedError, produce no result and no fitted state, and the twin call "
             "differing only in the offending aspect must succeed",
             "4/C20", TRUST + "Contexts are enumerated (3 series x 2 horizons) instead of randomised."),
+    "C12": ("model_checking", "E2+E4", E2 + " + " + E4,
+            "apply-call histories (every sequence of <=3 apply-type calls after fit, incl. same-shape different-content "
+            "inputs) for 24 series transformers, 20 panel transformers x 2 containers, 23 forecaster programs, 9 panel "
+            "estimators x 2 containers with input snapshots around fit and every call; twins x random_state x n_jobs x "
+            "pickle; every task order of every runnable Parallel call site under an owned joblib backend; every "
+            "<=1-preemption (thorough <=2) interleaving of two captured tasks on two real threads under a line-event baton",
+            "4/C12 + 3.5", TRUST + "C/third-party frames are atomic steps; process-based parallelism not explored."),
 }
 
 PENDING_REASON = "check not built yet in this round; planned in DESIGN.md section 4 (engine listed there)"
